@@ -188,6 +188,47 @@ def rule_b(ctx):
                           site(b, bb, where), b.id, "only the allow_width_overflow() builder may set the flag")
 
 
+def _error_region(b, start):
+    """blocks reachable from `start`, following `?` on a value that was just built as Err(..) only along its Break edge
+    (an error returned by an inlined helper and propagated by the caller is still 'returns the error directly')"""
+    seen = set()
+    work = [(start, frozenset(), frozenset())]
+    out = set()
+    while work:
+        x, errs, brks = work.pop()
+        if (x, errs, brks) in seen:
+            continue
+        seen.add((x, errs, brks))
+        out.add(x)
+        errs, brks = set(errs), set(brks)
+        for st in b.stmts(x):
+            if st["k"] != "assign" or st["lhs"]["p"]:
+                continue
+            rv = st.get("rv") or {}
+            l = st["lhs"]["l"]
+            src = op_place(rv["use"]) if "use" in rv else None
+            if rv.get("agg") == "adt" and rv.get("variant") == "Err":
+                errs.add(l)
+            elif src is not None and is_bare(src) and src["l"] in errs:
+                errs.add(l)
+            else:
+                errs.discard(l)
+                brks.discard(l)
+        t = b.term(x)
+        succs = [y for y in b.succ(x) if not b.is_cleanup(y)]
+        if t["k"] == "call" and callee_method(t) == "branch" and t["args"]:
+            a = op_place(t["args"][0])
+            if a is not None and is_bare(a) and a["l"] in errs and is_bare(t["dest"]):
+                brks.add(t["dest"]["l"])
+        elif t["k"] == "switch":
+            _neg, src = b.switch_source(x)
+            if src and src[0] == "discr" and is_bare(src[1]) and src[1]["l"] in brks:
+                succs = [tb for v, tb in t["targets"] if v == 1] or succs
+        for y in succs:
+            work.append((y, frozenset(errs), frozenset(brks)))
+    return out
+
+
 def rule_c(ctx):
     F = ctx.facts
     ndec = 0
@@ -224,7 +265,7 @@ def rule_c(ctx):
                     for s2 in b.succ(ubb):
                         truth, src = edge_is_true(b, ubb, s2)
                         if truth is False:
-                            region = b.reach_from(s2)
+                            region = _error_region(b, s2)
                             # stop at return; look at what happens on the way
                             effects = []
                             builds = False
@@ -236,7 +277,7 @@ def rule_c(ctx):
                                     if stt["k"] == "assign" and stt["lhs"]["p"] and stt["lhs"]["p"][0] == "*":
                                         effects.append("store %s" % stt["span"])
                                 tt = b.term(x)
-                                if tt["k"] == "call" and callee_method(tt) not in ("from_residual",):
+                                if tt["k"] == "call" and callee_method(tt) not in ("from_residual", "branch"):
                                     effects.append("call %s" % callee_def(tt))
                             ctx.check(builds and not effects, "C11-C", key + ":decision:not-allowed⇒Err-without-effects",
                                       t["span"], b.id,
